@@ -41,6 +41,13 @@ int main(int argc, char** argv)
         return 1;
     }
 
+    // The options are mutually exclusive: reject the command line before anything is computed or written.
+
+    if (cmd.num_options({ "-old-ordering" })>1) {
+        std::cerr << "Error: providing mutually exclusive options to " << argv[0] << "!" << std::endl;
+        return 1;
+    }
+
     cmd.print();
 
     constexpr char geomfileopt[]       = "geometry file";
